@@ -33,6 +33,12 @@ type Case struct {
 	goObs  Obs
 	goAst  AObs
 	goTok  TObs
+	// cli cases
+	Args     []string `json:"args,omitempty"`
+	ViaFile  bool     `json:"via_file,omitempty"`
+	Input    *string  `json:"input,omitempty"` // nil: the read fails
+	ExitCode int      `json:"exit_code,omitempty"`
+	Stdout   string   `json:"stdout,omitempty"`
 }
 
 type Violation struct {
@@ -137,6 +143,14 @@ func (r *Run) addAst(family, expr string, cmpOff bool) *Case {
 	return &r.cases[len(r.cases)-1]
 }
 
+// addCli records one run of the jpgo binary.
+func (r *Run) addCli(family string, args []string, viaFile bool, input *string, code int, stdout string) {
+	c := Case{ID: len(r.cases), Family: family, Kind: "cli", Expr: strings.Join(args, " "), Args: args, ViaFile: viaFile,
+		Input: input, ExitCode: code, Stdout: stdout, Go: fmt.Sprintf("exit=%d stdout=%q", code, stdout)}
+	r.cases = append(r.cases, c)
+	r.count(fmt.Sprintf("cli-case:exit%d", code))
+}
+
 func (r *Run) addTok(family, expr string) *Case {
 	r.mark(family, expr, nil)
 	t := observeTokens(expr)
@@ -215,6 +229,16 @@ func (c *Case) coq() string {
 		return fmt.Sprintf("CA (ACase %d %s %s %s)", c.ID, coqBytes(c.Expr), coqBool(c.CmpOff), c.goAst.coq())
 	case "tok":
 		return fmt.Sprintf("CT (TCase %d %s %s)", c.ID, coqBytes(c.Expr), c.goTok.coq())
+	case "cli":
+		args := make([]string, len(c.Args))
+		for i, a := range c.Args {
+			args[i] = coqBytes(a)
+		}
+		in := "None"
+		if c.Input != nil {
+			in = "(Some " + coqBytes(*c.Input) + ")"
+		}
+		return fmt.Sprintf("CC (CCase %d [%s] %s %s %s %s)", c.ID, strings.Join(args, "; "), coqBool(c.ViaFile), in, coqZ(int64(c.ExitCode)), coqBytes(c.Stdout))
 	}
 	panic("kind")
 }
